@@ -833,8 +833,56 @@ def gen_scope_session(rng, model, params, index):
     return sd
 
 
+def gen_same_patch_session(rng, model, params, index):
+    """The same patch (temporary labels, branches to its own labels,
+    references to module symbols and externs) inserted N in 1..8 times in
+    one rewrite."""
+    import copy
+
+    ids = IdGen()
+    ids.n = 1000 * (index + 1)
+    wl = labels_of(model)
+    spans = [sp for lst in model.span_list.values() for sp in lst if sp.size and sp.kind == "code"]
+    padtoks = {t.id for _, u in model.units() for t in u.toks if t.origin == "pad"}
+    spans = [sp for sp in spans if not (set(sp.tok_ids) & padtoks)]
+    if not spans:
+        return None
+    tpre = f"s{index + 1}q"
+    lines = [{"marker": True}, {"label": tpre + "0", "temp": True}, {"v": "nop"}]
+    if rng.random() < 0.7:
+        lines.append({"v": "jcc", "t": tpre + "0", "ttemp": True})
+    if rng.random() < 0.5:
+        lines.append({"label": tpre + "1", "temp": True})
+        lines.append({"v": "nop"})
+        lines.insert(1, {"v": "jcc", "t": tpre + "1", "ttemp": True})
+    if wl["all"] and params["_isa"] == "x64" and rng.random() < 0.6:
+        lines.append({"v": "lea", "t": rng.choice(wl["all"])})
+    if wl["externs"] and rng.random() < 0.4:
+        lines.append({"v": "call", "t": rng.choice(wl["externs"])})
+        lines.append({"v": "nop"})
+    patch = {"lines": lines}
+    n = rng.randint(1, 8)
+    ops = []
+    places = []
+    for sp in spans:
+        for off, tid in sorted(sp.offsets.items()):
+            places.append(tid)
+    rng.shuffle(places)
+    for tid in places[:n]:
+        ops.append({"k": "ins", "at": tid, "side": "before", "patch": copy.deepcopy(patch)})
+    sd = {"ops": ops, "reg_order": list(range(len(ops)))}
+    r = rng.random()
+    if r < 0.2 and ops:
+        sd["faults"] = {"callback": {str(rng.randint(1, len(ops))): rng.choice(["undef", "redef"])}}
+    return sd
+
+
 def _gen_session(rng, model, params, index):
     """Generate one session's ops against the current spans of the model."""
+    if rng.random() < params.get("same_patch_p", 0.0):
+        sd = gen_same_patch_session(rng, model, params, index)
+        if sd is not None:
+            return sd
     if rng.random() < params.get("scope_session_p", 0.0):
         sd = gen_scope_session(rng, model, params, index)
         if sd is not None:
